@@ -27,24 +27,26 @@
 (* WasRestoredFromStorage) after every call.  cfg.obs = "lazy": st carries only the ones    *)
 (* that do not walk the trie (Size, Root, WasRestoredFromStorage) and Has/Get/Stream are    *)
 (* stimuli of their own, so that mutations also run on a partially loaded (reopened) trie.  *)
-(* cfg.nilEmpty: the value serializer handed to ads.NewMap encodes the empty value as a nil *)
-(* slice instead of an empty one (both are "empty values"; the map must not care).          *)
+(* Set's enc field: the map flavour is built with V = []byte and the identity serializer    *)
+(* (like the repo's own test value type); the empty value "" is handed over either as an    *)
+(* empty non-nil slice (enc "empty") or as a nil slice (enc "nil").  Both are the empty     *)
+(* value - the model ignores enc, the map must not care either.                             *)
 EXTENDS Integers, Sequences, FiniteSets, TLC
 
 CONSTANTS MapNK, SetNK,   \* number of keys of the map / set flavour
           Vals,           \* values of the map flavour (strings, "" included)
           Flavours,       \* subset of {"map", "set"}
-          NilEnc,         \* subset of BOOLEAN (map flavour)
+          EmptyEncs,      \* how the empty value is handed to Set: subset of {"empty", "nil"}
           Modes           \* subset of {"full", "lazy"}
 VARIABLES cfg, cur, com, ever, fresh, ev
 vars == <<cfg, cur, com, ever, fresh, ev>>
 View == <<cfg, cur, com, ever, fresh>>
 
 MapCfgs == IF "map" \in Flavours
-             THEN {[flavour |-> "map", nk |-> MapNK, nilEmpty |-> n, obs |-> o] : n \in NilEnc, o \in Modes}
+             THEN {[flavour |-> "map", nk |-> MapNK, obs |-> o] : o \in Modes}
              ELSE {}
 SetCfgs == IF "set" \in Flavours
-             THEN {[flavour |-> "set", nk |-> SetNK, nilEmpty |-> FALSE, obs |-> o] : o \in Modes}
+             THEN {[flavour |-> "set", nk |-> SetNK, obs |-> o] : o \in Modes}
              ELSE {}
 Cfgs == MapCfgs \cup SetCfgs
 
@@ -88,7 +90,7 @@ Do(s) ==
          /\ cfg' = s.cfg /\ cur' = Empty(s.cfg) /\ com' = Empty(s.cfg) /\ ever' = FALSE /\ fresh' = FALSE /\ ev' = s
     [] s.op = "Set" ->
          /\ Write(s, <<s.v>>)
-         /\ ev' = [op |-> "Set", k |-> s.k, v |-> s.v, res |-> Ok, st |-> St(cfg, cur', ever)]
+         /\ ev' = [op |-> "Set", k |-> s.k, v |-> s.v, enc |-> s.enc, res |-> Ok, st |-> St(cfg, cur', ever)]
     [] s.op = "Add" ->              \* set flavour: the element's value is the empty value
          /\ Write(s, <<"">>)
          /\ ev' = [op |-> "Add", k |-> s.k, res |-> Ok, st |-> St(cfg, cur', ever)]
@@ -121,7 +123,10 @@ Do(s) ==
          /\ Read                    \* probe instance is thrown away, the original one stays in use
          /\ ev' = [op |-> "ProbeReopen", res |-> [restored |-> ever, err |-> "ok"], st |-> St(cfg, cur, ever)]
 
-Mutators(c) == IF c.flavour = "map" THEN [op : {"Set"}, k : Keys(c), v : Vals] ELSE [op : {"Add"}, k : Keys(c)]
+Encs(v) == IF v = "" THEN EmptyEncs ELSE {"bytes"}
+Mutators(c) == IF c.flavour = "map"
+                 THEN UNION {{[op |-> "Set", k |-> k, v |-> v, enc |-> e] : k \in Keys(c), e \in Encs(v)} : v \in Vals}
+                 ELSE [op : {"Add"}, k : Keys(c)]
 Readers(c) == IF c.obs = "lazy"
                 THEN [op : (IF c.flavour = "map" THEN {"Get", "Has"} ELSE {"Has"}), k : Keys(c)]
                      \cup [op : {"Stream", "StreamStop"}]
